@@ -1107,14 +1107,21 @@ class ChannelFileRead(ChannelFile):
         return ret
 
     def readline(self) -> str:
+        # items (and thus the buffer) are bytes when the file is used for
+        # binary data, e.g. by ProxyIO
+        newline: Any = "\n"
         if self._buffer is not None:
-            i = self._buffer.find("\n")
+            if isinstance(self._buffer, bytes):
+                newline = b"\n"
+            i = self._buffer.find(newline)
             if i != -1:
                 return self.read(i + 1)
             line = self.read(len(self._buffer) + 1)
         else:
             line = self.read(1)
-        while line and line[-1] != "\n":
+            if isinstance(line, bytes):
+                newline = b"\n"
+        while line and line[-1:] != newline:
             c = self.read(1)
             if not c:
                 break
